@@ -26,6 +26,7 @@ import (
 type replayFile struct {
 	Harness string            `json:"harness"`
 	Tier    int               `json:"tier"`
+	Seed    int               `json:"seed"`
 	Values  map[string]string `json:"values"`
 }
 
@@ -157,6 +158,14 @@ func MaxAlloc() int { return 0 }
 
 // Symbolic reports whether the harness runs under the symbolic engine.
 func Symbolic() bool { return false }
+
+// Seed is the run's VERIF_SEED (sampling decisions in harnesses must depend on nothing else).
+func Seed() int {
+	if rf.Seed < 0 {
+		return -rf.Seed
+	}
+	return rf.Seed
+}
 
 // Tier is 0 for quick, 1 for thorough.
 func Tier() int { return rf.Tier }
